@@ -102,8 +102,8 @@ func (s StringSchema) ValidateCompatibility(typeOrData any) error {
 		// or the max of the tested type is less than the min of the self type
 		// For more control over this, the ValidateCompatibility API would need to change to allow subset,
 		// superset, and exact verification levels.
-		if (s.MinValue != nil && stringSchemaType.MaxValue != nil && (*stringSchemaType.MinValue) > (*s.MaxValue)) ||
-			(s.MaxValue != nil && stringSchemaType.MinValue != nil && (*stringSchemaType.MaxValue) < (*s.MinValue)) {
+		if (s.MaxValue != nil && stringSchemaType.MinValue != nil && (*stringSchemaType.MinValue) > (*s.MaxValue)) ||
+			(s.MinValue != nil && stringSchemaType.MaxValue != nil && (*stringSchemaType.MaxValue) < (*s.MinValue)) {
 			return &ConstraintError{
 				Message: "mutually exclusive string lengths between string schemas",
 			}
